@@ -151,6 +151,16 @@ def bin_case(draw, tier):
         if np.any(np.diff(centres) <= 0):
             centres = np.linspace(c0, c1, nc)
         cgrid = "nonuniform"
+    if method == "trapz" and draw(st.integers(0, 2)) == 0:
+        nc = max(nc, 3)
+        # centres that are almost, but not exactly, evenly spaced (slightly non-linear dispersion): spacings
+        # within 1e-3 .. 1e-8 (relative) of one another
+        p = np.arange(nc, dtype=float)
+        q = draw(st.sampled_from([1e-3, 1e-4, 1e-5, 3e-6, 3e-6, 1e-6, 1e-6, 1e-7])) * draw(st.sampled_from([-1.0, 1.0]))
+        if draw(st.booleans()):
+            shape = "linear"
+        centres = c0 + (c1 - c0) * (p + q * p * p / nc) / (nc - 1 + q * (nc - 1) ** 2 / nc)
+        cgrid = "near_uniform"
     # keep every bin (symmetric ends reach half a spacing beyond the outer centres) inside the data range
     d0, d1 = (centres[1] - centres[0]) / 2, (centres[-1] - centres[-2]) / 2
     need_lo, need_hi = centres[0] - d0, centres[-1] + d1
